@@ -27,17 +27,18 @@ VARIABLES ns,       \* NetCore node state
           sess,     \* session label -> [phase, peer, cost, allow, nodecost]
           pend,     \* session label -> last routing update received on it (not yet judged)
           prelay,   \* ids accepted (or adopted as duplicate notice) and not yet relayed
-          lastOwn,  \* id of the last own update made
+          lastOwn,  \* ids of the own updates made so far (several can be in flight: tick and initial-connect goroutines)
+          duty,     \* what the duplicate-node logic still owes: "die" and/or epochs for which a notice must be sent
           l, skip
 
-vars == <<ns, sess, pend, prelay, lastOwn, l, skip>>
+vars == <<ns, sess, pend, prelay, lastOwn, duty, l, skip>>
 
 SeqSet(s) == {s[i] : i \in 1..Len(s)}
 E == Trace[l]
 
 NoU == Update("", "", 0, 0, EmptyF, "", 0)
 
-TInit == /\ ns = NewNode("", 0) /\ sess = EmptyF /\ pend = EmptyF /\ prelay = {} /\ lastOwn = ""
+TInit == /\ ns = NewNode("", 0) /\ sess = EmptyF /\ pend = EmptyF /\ prelay = {} /\ lastOwn = {} /\ duty = {}
          /\ l = 1 /\ skip = TRUE
 
 Report(d) == d = {} \/ PrintT(<<"DIFF", l, E.ev, d>>)
@@ -48,13 +49,17 @@ Advance(d) == /\ l' = l + 1
               /\ Report(d)
               /\ PrintT(<<"CLASS", E.ev>>)
 
-Keep == UNCHANGED <<ns, sess, pend, prelay, lastOwn>>
+Keep == UNCHANGED <<ns, sess, pend, prelay, lastOwn, duty>>
 
 IsEv(e) == l <= Len(Trace) /\ E.ev = e
 
+\* a node that learnt it is the later duplicate must have shut down by the end of its trace
+Unpaid == IF skip THEN {} ELSE (IF "die" \in duty /\ ns.alive THEN {"duplicate_did_not_shut_down"} ELSE {})
+
 TReset == /\ IsEv("reset")
+          /\ (IF Unpaid = {} THEN TRUE ELSE PrintT(<<"DIFF", l, "end_of_instance", Unpaid>>))
           /\ ns' = NewNode(E.self, E.epoch)
-          /\ sess' = EmptyF /\ pend' = EmptyF /\ prelay' = {} /\ lastOwn' = ""
+          /\ sess' = EmptyF /\ pend' = EmptyF /\ prelay' = {} /\ lastOwn' = {} /\ duty' = {}
           /\ l' = l + 1 /\ skip' = FALSE
 
 Skipped == /\ l <= Len(Trace) /\ E.ev # "reset" /\ (skip \/ ~ns.alive)
@@ -66,7 +71,7 @@ CostFor(s, peer) == IF Has(sess[s].nodecost, peer) THEN sess[s].nodecost[peer] E
 
 TSessStart == /\ Live("sess_start")
               /\ sess' = Put(sess, E.sess, [phase |-> "fresh", peer |-> "", cost |-> E.cost, allowany |-> E.allowany, allow |-> SeqSet(E.allow), nodecost |-> E.nodecost])
-              /\ UNCHANGED <<ns, pend, prelay, lastOwn>>
+              /\ UNCHANGED <<ns, pend, prelay, lastOwn, duty>>
               /\ Advance({})
 
 TRecv ==
@@ -77,7 +82,7 @@ TRecv ==
          lists == known /\ sess[E.sess].phase = "est" /\ E.hasu /\ E.u.fwd = peer /\ E.u.node = peer /\ Has(E.u.conns, ns.id)
      IN /\ pend' = IF E.hasu THEN Put(pend, E.sess, E.u) ELSE Del(pend, E.sess)
         /\ ns' = IF lists /\ Has(ns.rest, peer) THEN [ns EXCEPT !.rest[peer] = TRUE] ELSE ns
-        /\ UNCHANGED <<sess, prelay, lastOwn>>
+        /\ UNCHANGED <<sess, prelay, lastOwn, duty>>
         /\ Advance(d)
 
 TReject ==
@@ -108,42 +113,50 @@ TConnAdd ==
                    \cup (IF E.cost # CostFor(s, u.fwd) THEN {"cost"} ELSE {})
      IN /\ ns' = EstConn(ns, E.peer, E.cost)
         /\ sess' = IF Has(sess, s) THEN [sess EXCEPT ![s].peer = E.peer] ELSE sess
-        /\ UNCHANGED <<pend, prelay, lastOwn>>
+        /\ UNCHANGED <<pend, prelay, lastOwn, duty>>
         /\ Advance(d)
 
 TKnownAdd ==
   /\ Live("known_add")
   /\ LET n2 == EstKnown(ns, E.peer, E.cost)
          d == IF n2.known # E.known THEN {"known"} ELSE {}
-     IN ns' = n2 /\ UNCHANGED <<sess, pend, prelay, lastOwn>> /\ Advance(d)
+     IN ns' = n2 /\ UNCHANGED <<sess, pend, prelay, lastOwn, duty>> /\ Advance(d)
 
 TEstablished ==
   /\ Live("established")
   /\ sess' = IF Has(sess, E.sess) THEN [sess EXCEPT ![E.sess].phase = "est"] ELSE sess
-  /\ UNCHANGED <<ns, pend, prelay, lastOwn>> /\ Advance({})
+  /\ UNCHANGED <<ns, pend, prelay, lastOwn, duty>> /\ Advance({})
 
 TConnDel == /\ Live("conn_del")
             /\ ns' = RemConn(ns, E.peer)
-            /\ UNCHANGED <<sess, pend, prelay, lastOwn>> /\ Advance({})
+            /\ UNCHANGED <<sess, pend, prelay, lastOwn, duty>> /\ Advance({})
 
 TKnownDel ==
   /\ Live("known_del")
   /\ LET n2 == RemKnown(ns, E.peer)
          d == IF n2.known # E.known THEN {"known"} ELSE {}
-     IN ns' = n2 /\ UNCHANGED <<sess, pend, prelay, lastOwn>> /\ Advance(d)
+     IN ns' = n2 /\ UNCHANGED <<sess, pend, prelay, lastOwn, duty>> /\ Advance(d)
 
 TSessEnd == /\ Live("sess_end")
             /\ sess' = IF Has(sess, E.sess) THEN [sess EXCEPT ![E.sess].phase = "closed"] ELSE sess
             /\ pend' = Del(pend, E.sess)
-            /\ UNCHANGED <<ns, prelay, lastOwn>> /\ Advance({})
+            /\ UNCHANGED <<ns, prelay, lastOwn, duty>> /\ Advance({})
 
-TRuSelf == /\ Live("ru_self") /\ Keep /\ Advance({})
+\* an update naming this node as origin (1459-1480): same epoch -> ours, ignore; it suspects OUR epoch -> we are the
+\* later duplicate and must shut down; newer epoch -> the other one is a duplicate, say so; older -> ignore
+TRuSelf ==
+  /\ Live("ru_self")
+  /\ duty' = IF E.epoch = ns.epoch THEN duty
+             ELSE IF E.susp = ns.epoch THEN duty \cup {"die"}
+             ELSE IF E.epoch > ns.epoch /\ ns.conn # EmptyF THEN duty \cup {E.epoch}
+             ELSE duty
+  /\ UNCHANGED <<ns, sess, pend, prelay, lastOwn>> /\ Advance({})
 
 TRuSeen ==
   /\ Live("ru_seen")
   /\ LET d == IF E.hit # (E.id \in ns.seen) THEN {"seen_hit"} ELSE {}
      IN /\ ns' = [ns EXCEPT !.seen = @ \cup {E.id}]
-        /\ UNCHANGED <<sess, pend, prelay, lastOwn>> /\ Advance(d)
+        /\ UNCHANGED <<sess, pend, prelay, lastOwn, duty>> /\ Advance(d)
 
 TRuDup ==
   /\ Live("ru_dupnotice")
@@ -152,7 +165,7 @@ TRuDup ==
          d == (IF E.hasinfo # Has(n2.info, E.origin) THEN {"info_presence"} ELSE {})
               \cup (IF E.hasinfo /\ Has(n2.info, E.origin) /\ n2.info[E.origin] # E.info THEN {"info"} ELSE {})
      IN /\ ns' = n2 /\ prelay' = prelay \cup {E.id}
-        /\ UNCHANGED <<sess, pend, lastOwn>> /\ Advance(d)
+        /\ UNCHANGED <<sess, pend, lastOwn, duty>> /\ Advance(d)
 
 TRuApply ==
   /\ Live("ru_apply")
@@ -168,7 +181,7 @@ TRuApply ==
               \cup (IF E.origin = ns.id THEN {"applied_own_origin"} ELSE {})
      IN /\ ns' = n2
         /\ prelay' = IF acc THEN prelay \cup {E.id} ELSE prelay
-        /\ UNCHANGED <<sess, pend, lastOwn>> /\ Advance(d)
+        /\ UNCHANGED <<sess, pend, lastOwn, duty>> /\ Advance(d)
 
 TFlood ==
   /\ Live("flood")
@@ -176,18 +189,20 @@ TFlood ==
      ELSE LET own == E.u.node = ns.id
               d == (IF SeqSet(E.targets) # (DOMAIN ns.conn) \ {E.exclude} THEN {"targets"} ELSE {})
                    \cup (IF E.exclude # "" /\ E.exclude \in SeqSet(E.targets) THEN {"relayed_back"} ELSE {})
-                   \cup (IF own /\ E.u.id # lastOwn THEN {"own_update_unknown"} ELSE {})
+                   \cup (IF own /\ E.u.id \notin lastOwn THEN {"own_update_unknown"} ELSE {})
                    \cup (IF ~own /\ E.u.id \notin prelay THEN {"relay_not_accepted_or_twice"} ELSE {})
                    \cup (IF ~own /\ E.u.fwd # ns.id THEN {"forwarder_not_rewritten"} ELSE {})
                    \cup (IF ~own /\ E.exclude = "" THEN {"relay_without_exclusion"} ELSE {})
           IN /\ prelay' = IF own THEN prelay ELSE prelay \ {E.u.id}
-             /\ UNCHANGED <<ns, sess, pend, lastOwn>> /\ Advance(d)
+             /\ UNCHANGED <<ns, sess, pend, lastOwn, duty>> /\ Advance(d)
 
 TMkUpdate ==
   /\ Live("mk_update")
   /\ LET d == (IF E.seq # ns.seq + 1 THEN {"seq"} ELSE {})
               \cup (IF E.conns # ns.conn THEN {"conns"} ELSE {})
-     IN /\ ns' = [ns EXCEPT !.seq = E.seq] /\ lastOwn' = E.id
+              \cup (IF E.susp # 0 /\ E.susp \notin duty THEN {"duplicate_notice_without_cause"} ELSE {})
+     IN /\ ns' = [ns EXCEPT !.seq = E.seq] /\ lastOwn' = lastOwn \cup {E.id}
+        /\ duty' = duty \ {E.susp}
         /\ UNCHANGED <<sess, pend, prelay>> /\ Advance(d)
 
 TRebuild ==
@@ -198,7 +213,7 @@ TRebuild ==
 
 TShutdown == /\ Live("shutdown")
              /\ ns' = [ns EXCEPT !.alive = FALSE]
-             /\ UNCHANGED <<sess, pend, prelay, lastOwn>> /\ Advance({})
+             /\ UNCHANGED <<sess, pend, prelay, lastOwn, duty>> /\ Advance({})
 
 TOther == /\ Live("other") /\ Keep /\ Advance({})
 
@@ -223,5 +238,5 @@ OnePerIdAdmitted == \A p \in DOMAIN ns.conn : p # "" /\ p # ns.id
 RestDomain == DOMAIN ns.rest = DOMAIN ns.conn
 NoSelfInfo == ~Has(ns.info, ns.id)
 
-Done == l = Len(Trace) + 1 => PrintT(<<"DONE", l - 1>>)
+Done == l = Len(Trace) + 1 => (PrintT(<<"DONE", l - 1>>) /\ (IF Unpaid = {} THEN TRUE ELSE PrintT(<<"DIFF", l - 1, "end_of_instance", Unpaid>>)))
 =============================================================================
